@@ -210,16 +210,17 @@ def path_shapes(o: Outcome | None, thorough: bool) -> list:
     computation that reads the name as a pattern (vacuity guard)."""
     jobs = [("Paths", "BackupPaths", "BackupPaths_all.cfg" if thorough else "BackupPaths_quick.cfg", dict(workers=1, timeout=300, env=UTF8)),
             ("Demo_BackupPaths_restoreglob", "BackupPaths", "Demo_BackupPaths_restoreglob.cfg", dict(workers=1, check=False, env=UTF8)),
-            ("Demo_BackupPaths_closeglob", "BackupPaths", "Demo_BackupPaths_closeglob.cfg", dict(workers=1, check=False, env=UTF8))]
+            ("Demo_BackupPaths_closeglob", "BackupPaths", "Demo_BackupPaths_closeglob.cfg", dict(workers=1, check=False, env=UTF8)),
+            ("Demo_BackupPaths_tempbysuffix", "BackupPaths", "Demo_BackupPaths_tempbysuffix.cfg", dict(workers=1, check=False, env=UTF8))]
     res = tlc_many(jobs)
     shapes = sorted(res["Paths"].tagged("SHAPE"), key=lambda c: c["id"])
     if o is not None:
         for name, *_ in jobs:
             o.add_tlc(name, res[name])
-        for name in ("Demo_BackupPaths_restoreglob", "Demo_BackupPaths_closeglob"):
+        for name in ("Demo_BackupPaths_restoreglob", "Demo_BackupPaths_closeglob", "Demo_BackupPaths_tempbysuffix"):
             o.extra.setdefault("demo_counterexample_found", {})[name] = bool(res[name].invariant_violated)
             if not res[name].invariant_violated:
-                raise common.TLCError(f"{name} no longer shows the name-read-as-a-pattern counterexample (vacuity guard)")
+                raise common.TLCError(f"{name} no longer shows its counterexample (a name read as a pattern / a temp name that is the backup name; vacuity guard)")
     if not shapes:
         raise common.TLCError("BackupPaths printed no shape")
     for sh in shapes:
